@@ -5,7 +5,12 @@ Correspondence: N reader goroutines (parse + symbol resolution + index / link / 
 filter queries, every result tagged with the version marker read in the same transaction) against one
 writer committing multi-operation transactions; every tagged answer is compared with the model's
 serial answer for that version; a helper hammer; everything in a binary built with -race, a race
-report is a violation."""
+report is a violation.
+Third strengthening (harness c18_s3.go): transactions composed of Db calls that join them against a restore
+("D" scenarios on the schedule of Db/LockTable.v, the same forms inside the main workload, a stall watchdog),
+and values kept beyond the read transaction, read again after later commits and restores ("K" lines;
+Properties/C18.v kept_observations_persist); tables lock_table / view_table of Gen/GenAccess.v with
+Properties/C18Locks.v, C18Views.v."""
 import glob
 import json
 import os
@@ -14,7 +19,8 @@ import re
 import vlib
 
 PID = "C18"
-FILES = ["theories/Properties/C18.v", "theories/Examples/C18Examples.v", "theories/Properties/C18Table.v"]
+FILES = ["theories/Properties/C18.v", "theories/Examples/C18Examples.v", "theories/Properties/C18Table.v",
+         "theories/Properties/C18Locks.v", "theories/Properties/C18Views.v", "theories/Examples/C18LockExamples.v"]
 MOD = "github.com/openziti/storage/"
 
 
@@ -86,6 +92,40 @@ def table_conflicts(path):
     return out
 
 
+def lock_offenders(path):
+    """rows of the generated lock_table that acquire the handle's lock on their in-transaction path"""
+    try:
+        txt = open(path).read()
+    except OSError:
+        return []
+    m = re.search(r"Definition lock_table : list lockfn := \[(.*?)\n\]\.", txt, re.S)
+    out = []
+    for name, acq in re.findall(r'lf_name := "([^"]+)"; lf_in_tx := \[(.*?)\] \|\}', m.group(1) if m else "", re.S):
+        if acq.strip():
+            out.append((name, re.findall(r'"([^"]+)"', acq)))
+    return out
+
+
+def foreign_views(path):
+    """rows of the generated view_table that view memory the function did not allocate"""
+    try:
+        txt = open(path).read()
+    except OSError:
+        return []
+    m = re.search(r"Definition view_table : list memview := \[(.*?)\n\]\.", txt, re.S)
+    return [(fn, what, op) for fn, what, op, owned in
+            re.findall(r'mv_fn := "([^"]+)"; mv_what := "([^"]+)"; mv_operand := "([^"]+)"; mv_owned := (\w+)', m.group(1) if m else "")
+            if owned != "true"]
+
+
+def unhex(h):
+    try:
+        t = bytes.fromhex(h).decode("utf-8", "replace")
+    except ValueError:
+        return h
+    return "".join(ch if ch.isprintable() else "." for ch in t)
+
+
 def main(argv):
     c = vlib.Check(PID, argv)
     c.cov["trusted_base"] = [
@@ -95,12 +135,15 @@ def main(argv):
         "translators/access (Go, go/packages): reading of the Go AST/types; its rules for write / synchronised / call graph (design/C18.md)",
         "the Go memory model and the race detector: a data race is not expressible in Gallina; the theorem is about the access table, the -race run supplies schedules",
         "extraction (ExtrOcamlBasic only) + extraction/c18_driver.ml + drv_common.ml",
-        "Go harness cmd/storageharness/c18.go, c18_s2.go, c17_stores.go and this comparison",
+        "Go harness cmd/storageharness/c18.go, c18_s2.go, c18_s3.go, c17_stores.go and this comparison",
+        "Db/RwLock.v (the reload-lock system of C17: sync.RWMutex by its specification, writer preference) and the translator's rules for lock_table / view_table (translators/access/locks.go)",
     ]
     c.assumptions = [
         "one writer at a time (bbolt serialises write transactions)",
         "the access table covers package-level variables, fields of the store, variables captured by function literals stored in struct fields and appends on shared slices (translator rules: design/C18.md); other writes to objects reachable from several goroutines are covered by the race detector run only",
         "a once-guarded write is ordered before the reads that follow the same Once.Do (true of the generated ANTLR static data)",
+        "restoring the committed state that is current (streamed out by StreamToWriter) changes no version: the main workload restores only such states (what a restore reproduces is C17's subject)",
+        "[]byte values handed out by cursors / symbol evaluation / index reads belong to the transaction (bbolt's contract); kept beyond it are strings, string lists, maps and entities",
     ]
     proof_ok = c.proof_step(FILES, translators=["access"])
     model = None
@@ -144,6 +187,15 @@ def main(argv):
         if fatal:
             c.violation("C18:concurrent-map-access:" + where, "Go runtime: %s in %s while readers ran concurrently" % (fatal.group(1), where),
                         dict(case=run_case, log=out[-4000:]))
+        elif rc == 9:
+            try:
+                dl = open(os.path.join(c.work, "DEADLOCK.txt")).read().strip().split("\n")
+            except OSError:
+                dl = [run_case]
+            dline, frames = dl[0], " ".join(dl[1:])
+            c.violation("C18:deadlock", "the writer of the main workload, composed of Db calls that join its transaction, made no progress any more while a restore "
+                        "was pending: it waits for the reload lock inside its own transaction (%s), the restore waits for the transaction; equivalent scenario: %s"
+                        % (frames, dline), dict(case=dline if dline.startswith("D ") else run_case, run=run_case, waiting=frames, log=out[-6000:]))
         elif rc == 7:
             c.violation("C18:hang", "the concurrent run did not finish (watchdog); first repository frame: %s" % where, dict(case=run_case, log=out[-4000:]))
         elif rc == 8:
@@ -182,7 +234,7 @@ def main(argv):
             lines += ["Q 0 0 %d list 2 1" % ver, cases[k], "Q 0 0 %d all" % ver, "Q 0 0 %d glist -1 -1" % ver, "X " + X_EMPTY_PAGED]
         elif kind in ("xb", "xbs", "xs", "xss", "xg", "xw", "gxb"):
             lines += [cases[k], "X " + X_EXT]
-        elif kind in ("tag", "tagc", "tagkeys", "name", "gidx", "gitems", "links", "rlinks", "linked"):
+        elif kind in ("tag", "tagm", "tagany", "tagc", "tagkeys", "name", "gidx", "gitems", "links", "rlinks", "linked"):
             lines += [cases[k], "X " + X_IDX]
         elif kind in ("f4", "f5", "f6", "f7", "f8", "wcount", "subhas", "subcount", "gname", "gtag", "gwtag", "gsub"):
             # the serial re-execution gives the serial answer by construction; the concurrent counterpart is
@@ -192,9 +244,21 @@ def main(argv):
             lines.append(cases[k])
         return "\n".join(lines)
 
+    def replay_kept(k):
+        """a value kept beyond its transaction: the committed transactions up to its version, load and keep,
+        the following commits, read again; once more after a restore"""
+        f = cases[k].split()
+        if f[0] != "K" or len(f) < 7:
+            return cases[k]
+        ver, later = int(f[3]), max(2, min(int(f[4]), 12))
+        return "\n".join([cases[j] for j in committed[:ver]] + ["K 0 0 %d 0 0 %s" % (ver, " ".join(f[6:]))]
+                         + [cases[j] for j in committed[ver:ver + later]] + ["KC 0", "KC 1"])
+
     distinct = set()
     disagreements = []
     versions_seen = set()
+    kept = dict(checked=0, after_restore=0, changed=0)
+    dynamic = set()
     for k, (case, i, m) in enumerate(zip(cases, impl, modl)):
         kind = case[0]
         if kind == "Q":
@@ -211,6 +275,37 @@ def main(argv):
         elif kind == "W":
             if i != m:
                 disagreements.append((case, i, m))
+        elif kind == "D":
+            distinct.add(case)
+            if i.startswith("D stuck"):
+                dynamic.add("deadlock")
+                where = unhex(i.split()[2]) if len(i.split()) > 2 else ""
+                c.violation("C18:deadlock",
+                            "a transaction composed of Db calls that join it never finished while a restore was pending (the model Db/LockTable.v "
+                            "lock_scenario finishes: %s); stuck at: %s" % (m, where), dict(case=case, impl=i, model=m, stuck_at=where))
+            elif i != m:
+                c.violation("C18:joined-transaction-differs", "a transaction composed of joined Db calls with a restore: %s, the lock model says %s"
+                            % (i[:300], m), dict(case=case, impl=i, model=m))
+        elif kind == "K":
+            kept["checked"] += 1
+            f = case.split()
+            if len(f) > 5 and f[0] == "K" and f[5] != "0":
+                kept["after_restore"] += 1
+            if i != m:
+                kept["changed"] += 1
+                dynamic.add("kept")
+                f2 = i.split()
+                what = ("reading it faults: %s" % unhex(f2[2])) if i.startswith("K fault") and len(f2) > 2 else \
+                       ("now %s, when loaded %s" % (unhex(f2[2])[:160], unhex(f2[3])[:160])) if i.startswith("K changed") and len(f2) > 3 else i[:200]
+                c.violation("C18:kept-value-changed",
+                            "what a reader obtained in a read transaction (%s, version %s) changed after the transaction: after %s later commits and %s restores %s"
+                            % ((" ".join(f[6:]), f[3], f[4], f[5], what) if f[0] == "K" and len(f) > 6 else
+                               ("the values kept by the K lines of this replay", "as given there", "the following", f[1] if len(f) > 1 else "0", what)),
+                            dict(case=replay_kept(k), impl=i, model=m, kept=case))
+        elif kind == "R":
+            if i != m:
+                c.violation("C18:restore-of-current-state-differs", "streaming the committed state out and restoring it: %s, expected %s" % (i[:200], m),
+                            dict(case="\n".join([cases[j] for j in wlines if j < k][-40:] + [case]), impl=i, model=m))
         elif kind in "SP":
             if i != m:
                 arg = case.split()[1]
@@ -240,6 +335,8 @@ def main(argv):
     qs = [k for k, x in enumerate(cases) if x.startswith("Q ")]
     c.cov["samples"] = [dict(case=cases[k][:600], impl=impl[k][:600], model=modl[k][:600]) for k in (wlines[:1] + qs[:1] + qs[-1:])]
     c.cov["race_reports"] = len(races)
+    c.cov["kept_values"] = kept
+    c.cov["joined_transaction_scenarios"] = len([x for x in cases if x.startswith("D ")])
     try:
         c.cov["input_distribution"] = json.load(open(os.path.join(c.work, "stats.json")))
     except Exception:
@@ -250,12 +347,28 @@ def main(argv):
                     % (len(disagreements), case[:200], i, m),
                     dict(correspondence="Db/Workload.v vs boltz stores", case=case, impl=i, model=m), no_input=True)
     if not proof_ok:
-        conflicts = table_conflicts(os.path.join(vlib.COQ, "theories", "Gen", "GenAccess.v"))
+        gen = os.path.join(vlib.COQ, "theories", "Gen", "GenAccess.v")
+        conflicts = table_conflicts(gen)
+        offenders, views = lock_offenders(gen), foreign_views(gen)
         pb = c.proof_broken or {}
+        if offenders and "deadlock" in dynamic:
+            vlib.log("  (joined_calls_never_deadlock does not hold for the regenerated lock table: %s - the stuck transaction above is its failing schedule)"
+                     % "; ".join("%s takes %s" % (n, ", ".join(a)) for n, a in offenders[:3]))
+        elif offenders:
+            c.violation("C18:proof", "joined_calls_never_deadlock no longer holds: a call that joins a running transaction takes the handle's lock again (%s); "
+                        "no explored schedule got stuck" % "; ".join("%s: %s" % (n, ", ".join(a)) for n, a in offenders[:4]),
+                        dict(broken=pb, offenders=offenders[:20], theorem="joined_calls_never_deadlock"), no_input=True)
+        if views and "kept" in dynamic:
+            vlib.log("  (no_foreign_memory_views does not hold for the regenerated view table: %s - the changed kept value above is its failing input)"
+                     % "; ".join("%s: %s(%s)" % v for v in views[:3]))
+        elif views:
+            c.violation("C18:proof", "no_foreign_memory_views no longer holds: %s; no kept value was seen to change"
+                        % "; ".join("%s builds %s over %s, memory it did not allocate" % v for v in views[:4]),
+                        dict(broken=pb, views=views[:20], theorem="no_foreign_memory_views"), no_input=True)
         if conflicts and any(v[0].startswith("C18:data-race") for v in c.violations):
             vlib.log("  (helpers_no_conflicting_access does not hold for the regenerated table: %s - the race run above is its failing schedule)"
                      % "; ".join("%s/%s on %s (%s)" % x for x in conflicts[:3]))
-        else:
+        elif conflicts or not (offenders or views):
             c.violation("C18:proof", "proof obligation no longer checks (%s)%s" % (
                 json.dumps(pb)[:500], "; conflicting accesses in the generated table: %s" % conflicts[:4] if conflicts else ""),
                 dict(broken=pb, conflicts=conflicts[:20], theorem="helpers_no_conflicting_access"), no_input=True)
